@@ -78,7 +78,12 @@ func withdrawTx(signers []uint8, code []byte) interfaces.Transaction {
 		0, []*pg.Program{{Code: code, Parameter: make([]byte, 64)}})
 }
 
-func runWithdraw(r *evid.Run, f *fixture, ct *wdCounters, classes *evid.Distinct, samples *evid.Samples) {
+// installArbiters puts a real Arbiters object (mainnet parameters, best height 2 300 000) into the
+// ledger; used by the withdraw and coinbase-context seams.
+func installArbiters(f *fixture) *state.Arbiters {
+	if a, ok := blockchain.DefaultLedger.Arbitrators.(*state.Arbiters); ok && a != nil {
+		return a
+	}
 	ckp := checkpoint.NewManager(config.GetDefaultParams())
 	arbiters, err := state.NewArbitrators(f.params, nil, nil, nil, nil, nil, nil, nil, nil, ckp)
 	if err != nil {
@@ -87,6 +92,11 @@ func runWithdraw(r *evid.Run, f *fixture, ct *wdCounters, classes *evid.Distinct
 	arbiters.RegisterFunction(func() uint32 { return 2300000 }, func() *common.Uint256 { return &common.Uint256{} },
 		func(uint32) (*types.Block, error) { return nil, nil }, nil)
 	blockchain.DefaultLedger.Arbitrators = arbiters
+	return arbiters
+}
+
+func runWithdraw(r *evid.Run, f *fixture, ct *wdCounters, classes *evid.Distinct, samples *evid.Samples) {
+	arbiters := installArbiters(f)
 	ccArbiters := arbiters.GetCrossChainArbiters()
 	n := len(ccArbiters)
 	if n == 0 || n >= 255 {
